@@ -1,4 +1,7 @@
 """C11 — cache reads return only the latest live value of their own key."""
-from props import cachelib
+from props import cachelib, cacheconc
 def run(ctx):
     cachelib.run(ctx, "C11", [("register", 5), ("capacity", 2), ("ttl", 1), ("iter", 1)], 3600, 60000, stress=150)
+    # concurrent layer: critical-section model over all interleavings + baton-scheduled tie on the real Cache
+    cacheconc.obligations(ctx, "C11")
+    cacheconc.tie(ctx)
